@@ -178,10 +178,14 @@ AFields(e) ==
        /\ obs' = Obs("fields", props, Judge(e.seg, props, e.res.kind, val, c.fields, <<>>), c.fields, e.res)
        /\ Frame
 
+TermsOnly(es) == [k \in DOMAIN es |-> es[k].term]
+
 ADict(e) ==
     LET c == segs[e.seg].c
-        exp == DictRange(c, e.field, e.lo, e.hi, e.aut)
-        val == IF e.res.kind = "ok" THEN e.res.entries ELSE <<>>
+        full == DictRange(c, e.field, e.lo, e.hi, e.aut)
+        exp == IF e.nocount THEN TermsOnly(full) ELSE full
+        got == IF e.res.kind = "ok" THEN e.res.entries ELSE <<>>
+        val == IF e.nocount THEN TermsOnly(got) ELSE got
         props == {"C08"} \cup KindProp(e.seg) \cup GProp(e) \cup (IF e.reuse_dict THEN {"C13"} ELSE {})
     IN /\ e.seg \in DOMAIN segs
        /\ obs' = Obs("dict", props, Judge(e.seg, props, e.res.kind, val, exp, <<>>), exp, e.res)
@@ -189,7 +193,7 @@ ADict(e) ==
 
 AContains(e) ==
     LET c == segs[e.seg].c
-        exp == e.term \in TermSet(c, e.field)
+        exp == \E d \in DOMAIN c.docs : HasTerm(c.docs[d], e.field, e.term)
         val == IF e.res.kind = "ok" THEN e.res.contains ELSE FALSE
         props == {"C08"} \cup KindProp(e.seg) \cup GProp(e)
     IN /\ e.seg \in DOMAIN segs
@@ -321,7 +325,7 @@ AMatch(e) ==
     LET c == segs[e.seg].c
         exp == Matching(c, e.pairs)
         got == IF e.res.kind = "ok" THEN e.res.docs ELSE <<>>
-        val == IF Len(got) = Cardinality(Range(got)) THEN Range(got) ELSE {-1}
+        val == IF Len(got) = Cardinality(RangeOf(got)) THEN RangeOf(got) ELSE {-1}
         props == {"C18"} \cup KindProp(e.seg) \cup GProp(e)
     IN /\ e.seg \in DOMAIN segs
        /\ obs' = Obs("match", props, Judge(e.seg, props, e.res.kind, val, exp, {}), exp, e.res)
@@ -372,6 +376,50 @@ ADigest(e) ==
        /\ obs' = Obs("digest", {"C15"}, IF segBad \/ bmBad THEN {"C15"} ELSE {}, digs, e)
        /\ UNCHANGED <<segs, files, pls, its, dvrs, bms, built>>
 
+\* C17: segments that Level A cannot tell apart must be observationally identical
+ASameObs(e) ==
+    LET cs == [k \in DOMAIN e.segs |-> segs[e.segs[k].seg].c]
+        sameA == \A k \in DOMAIN cs : SameDocs(cs[k], cs[1]) /\ cs[k].origin = cs[1].origin
+        sameD == \A k \in DOMAIN e.segs : e.segs[k].d = e.segs[1].d
+    IN /\ \A k \in DOMAIN e.segs : e.segs[k].seg \in DOMAIN segs
+       /\ obs' = Obs("same_obs", {"C17"},
+                     IF e.segs = <<>> THEN {} ELSE IF ~sameA THEN {"GEN"} ELSE IF sameD THEN {} ELSE {"C17"},
+                     <<>>, e.segs)
+       /\ Frame
+
+-----------------------------------------------------------------------------
+(* Format constants of version 2 (C10): what an independent walk of the bytes must find *)
+
+StoredBlockDocs == 128      \* documents per compressed stored-field block
+DvChunkDocs     == 1024     \* documents per doc-value chunk
+FormatVersion   == 2
+
+StoredChunkNum(n) == (n \div StoredBlockDocs) + 2        \* offsets recorded in the trailer
+StoredBlocks(n)   == (n + StoredBlockDocs - 1) \div StoredBlockDocs
+DvChunks(n)       == ((n - 1) \div DvChunkDocs) + 1
+
+ALayout(e) ==
+    LET f == files[e.file]
+        n == Len(f.c.docs)
+        r == e.res
+        bad == \/ r.kind # "ok"
+               \/ r.numDocs # n \/ r.version # FormatVersion \/ r.chunkMode # f.mode
+               \/ r.storedChunkNum # StoredChunkNum(n) \/ r.storedOffsets # StoredChunkNum(n)
+               \/ r.storedBlocks # StoredBlocks(n) \/ ~r.zstdMagic
+               \/ r.nfields # Len(f.c.fields)
+               \/ \E k \in DOMAIN r.dvChunks : r.dvChunks[k] # DvChunks(n)
+    IN /\ e.file \in DOMAIN files
+       /\ obs' = Obs("layout", {"C10"}, IF bad THEN {"C10"} ELSE {}, <<n, StoredChunkNum(n), StoredBlocks(n)>>, e.res)
+       /\ Frame
+
+\* the harness dropped its temporary handles; forget them too (keeps the tables small)
+Without(tab, h) == [k \in DOMAIN tab \ {h} |-> tab[k]]
+AForget(e) ==
+    /\ pls' = Without(pls, e.pl)
+    /\ its' = Without(its, e.it)
+    /\ obs' = NoObs
+    /\ UNCHANGED <<segs, files, dvrs, bms, built, digs>>
+
 AReset ==
     /\ segs' = Empty /\ files' = Empty /\ pls' = Empty /\ its' = Empty /\ dvrs' = Empty
     /\ bms' = Empty /\ built' = Empty /\ digs' = Empty /\ obs' = NoObs
@@ -399,6 +447,7 @@ Inv_C16 == ~Bad("C16")
 Inv_C17 == ~Bad("C17")
 Inv_C18 == ~Bad("C18")
 Inv_C19 == ~Bad("C19")
+Inv_GEN == ~Bad("GEN")    \* generator/harness consistency, not a property
 NoBad == obs.bad = {}
 
 =============================================================================
